@@ -59,8 +59,11 @@ def required(tier):
 
 # ------------------------------------------------------------------ grammar
 def _poison(A, where, val):
-  B = np.array(A, dtype=float, copy=True)
+  # (C order: reshape(-1) of a Fortran-ordered copy would be another copy
+  # and the poison would never reach B)
+  B = np.array(A, dtype=float, copy=True, order='C')
   flat = B.reshape(-1)
+  assert np.shares_memory(flat, B)
   pos = {'first': 0, 'middle': flat.size // 2, 'last': flat.size - 1}[where]
   flat[pos] = val
   return B
